@@ -2356,6 +2356,28 @@ func (b *Backend) emitWorkgroupInitPolyfill(epIdx int, fn *ir.Function, emitter 
 	}
 
 	if !hasLocalInvocIDArg {
+		// local_invocation_id declared as a member of an IO struct: reuse that member's Input variable
+		for i, arg := range fn.Arguments {
+			st, ok := b.module.Types[arg.Type].Inner.(ir.StructType)
+			if arg.Binding != nil || !ok {
+				continue
+			}
+			for j, member := range st.Members {
+				if member.Binding == nil {
+					continue
+				}
+				if bb, ok := (*member.Binding).(ir.BuiltinBinding); ok && bb.Builtin == ir.BuiltinLocalInvocationID {
+					inputVars := b.entryInputVars[epIdx]
+					if i < len(inputVars) && inputVars[i] != nil && j < len(inputVars[i].memberVarIDs) && inputVars[i].memberVarIDs[j] != 0 {
+						hasLocalInvocIDArg = true
+						localInvocID = b.builder.AddLoad(vec3uType, inputVars[i].memberVarIDs[j])
+					}
+				}
+			}
+		}
+	}
+
+	if !hasLocalInvocIDArg {
 		// Create a new Input variable for LocalInvocationId
 		ptrType := b.emitPointerType(StorageClassInput, vec3uType)
 		varyingID := b.builder.AddVariable(ptrType, StorageClassInput)
